@@ -38,7 +38,7 @@ func VerifH_registry_snapshot() {
 	case 0:
 		vfCheck(mux.registerService(sdA, &vfServer{}) == nil && mux.registerService(sdB, &vfServer{}) == nil, "setup")
 	case 1:
-		vfCheck(vfRegisterConn(mux, c2, &vfReflStream{svcs: []vfSvcSpec{vfSvcA, vfSvcB}}) == nil, "setup")
+		vfCheck(vfRegisterConn(mux, c2, &vfReflStream{svcs: []vfSvcSpec{vfSvcA2, vfSvcB2}}) == nil, "setup")
 	default:
 		vfCheck(vfRegisterConn(mux, c1, &vfReflStream{svcs: []vfSvcSpec{vfSvcA}}) == nil && mux.registerService(sdB, &vfServer{}) == nil, "setup")
 	}
@@ -106,6 +106,21 @@ var vfSvcB = vfSvcSpec{full: "vf.B", file: "vfb.proto", reqName: "ReqB", methods
 	{name: "M2", verb: "GET", tmpl: "/v1/{f}"},
 }}
 
+// vfSvcA2 / vfSvcB2: the same two services defined together in ONE proto file (a backend whose
+// file declares several services).
+var vfSvcA2 = vfSvcSpec{full: "vf.A", file: "vfab.proto", reqName: "ReqA", methods: vfSvcA.methods}
+var vfSvcB2 = vfSvcSpec{full: "vf.B", file: "vfab.proto", reqName: "ReqB", methods: vfSvcB.methods}
+
+func vfSpecsOfFile(file string) []vfSvcSpec {
+	var out []vfSvcSpec
+	for _, sp := range []vfSvcSpec{vfSvcA, vfSvcB, vfSvcA2, vfSvcB2} {
+		if sp.file == file {
+			out = append(out, sp)
+		}
+	}
+	return out
+}
+
 func vfSpecRule(ms vfMethodSpec) *annotations.HttpRule {
 	r := vfHTTPRule(ms.verb, ms.tmpl)
 	for _, e := range ms.extra {
@@ -127,53 +142,52 @@ func vfFakeSvc(sp vfSvcSpec) *fakeSvc {
 
 // vfFakeFileByName: what protodesc.NewFile yields under the engine for the descriptor named name.
 func vfFakeFileByName(name string) protoreflect.FileDescriptor {
-	for _, sp := range []vfSvcSpec{vfSvcA, vfSvcB} {
-		if sp.file == name {
-			return &fakeFile{path: sp.file, pkg: "vf", svcs: &fakeSvcList{list: []*fakeSvc{vfFakeSvc(sp)}}, msgs: &fakeMsgList{}}
-		}
+	specs := vfSpecsOfFile(name)
+	if len(specs) == 0 {
+		return nil
 	}
-	return nil
+	f := &fakeFile{path: name, pkg: "vf", svcs: &fakeSvcList{}, msgs: &fakeMsgList{}}
+	for _, sp := range specs {
+		f.svcs.list = append(f.svcs.list, vfFakeSvc(sp))
+	}
+	return f
 }
 
 // vfFileBytes returns the serialized FileDescriptorProto of a service spec. Natively these are the
 // real bytes (descriptorpb + the google.api.http extension) that proto.Unmarshal / protodesc.NewFile
 // consume; under the engine the function is intercepted and returns the file name as opaque bytes.
 func vfFileBytes(file string) []byte {
-	var sp vfSvcSpec
-	switch file {
-	case vfSvcA.file:
-		sp = vfSvcA
-	case vfSvcB.file:
-		sp = vfSvcB
-	default:
+	specs := vfSpecsOfFile(file)
+	if len(specs) == 0 {
 		panic("verif: unknown descriptor " + file)
 	}
 	str := descriptorpb.FieldDescriptorProto_TYPE_STRING.Enum()
 	opt := descriptorpb.FieldDescriptorProto_LABEL_OPTIONAL.Enum()
 	fd := &descriptorpb.FileDescriptorProto{
-		Name:       proto.String(sp.file),
+		Name:       proto.String(file),
 		Package:    proto.String("vf"),
 		Syntax:     proto.String("proto3"),
 		Dependency: []string{"google/api/annotations.proto"},
-		MessageType: []*descriptorpb.DescriptorProto{
-			{Name: proto.String(sp.reqName), Field: []*descriptorpb.FieldDescriptorProto{
+	}
+	for _, sp := range specs {
+		fd.MessageType = append(fd.MessageType,
+			&descriptorpb.DescriptorProto{Name: proto.String(sp.reqName), Field: []*descriptorpb.FieldDescriptorProto{
 				{Name: proto.String("f"), JsonName: proto.String("f"), Number: proto.Int32(1), Type: str, Label: opt},
 				{Name: proto.String("g"), JsonName: proto.String("g"), Number: proto.Int32(2), Type: str, Label: opt},
 			}},
-			{Name: proto.String("Resp" + sp.reqName), Field: []*descriptorpb.FieldDescriptorProto{
+			&descriptorpb.DescriptorProto{Name: proto.String("Resp" + sp.reqName), Field: []*descriptorpb.FieldDescriptorProto{
 				{Name: proto.String("r"), JsonName: proto.String("r"), Number: proto.Int32(1), Type: str, Label: opt},
-			}},
-		},
+			}})
+		svc := &descriptorpb.ServiceDescriptorProto{Name: proto.String(sp.full[3:])}
+		for _, ms := range sp.methods {
+			mo := &descriptorpb.MethodOptions{}
+			proto.SetExtension(mo, annotations.E_Http, vfSpecRule(ms))
+			svc.Method = append(svc.Method, &descriptorpb.MethodDescriptorProto{
+				Name: proto.String(ms.name), InputType: proto.String(".vf." + sp.reqName), OutputType: proto.String(".vf.Resp" + sp.reqName), Options: mo,
+			})
+		}
+		fd.Service = append(fd.Service, svc)
 	}
-	svc := &descriptorpb.ServiceDescriptorProto{Name: proto.String(sp.full[3:])}
-	for _, ms := range sp.methods {
-		mo := &descriptorpb.MethodOptions{}
-		proto.SetExtension(mo, annotations.E_Http, vfSpecRule(ms))
-		svc.Method = append(svc.Method, &descriptorpb.MethodDescriptorProto{
-			Name: proto.String(ms.name), InputType: proto.String(".vf." + sp.reqName), OutputType: proto.String(".vf.Resp" + sp.reqName), Options: mo,
-		})
-	}
-	fd.Service = []*descriptorpb.ServiceDescriptorProto{svc}
 	b, err := proto.Marshal(fd)
 	if err != nil {
 		panic(err)
@@ -352,8 +366,8 @@ func VerifH_registry() {
 			if c2.live {
 				failed = true
 			}
-			vfCheck(vfRegisterConn(mux, c2.cc, &vfReflStream{svcs: []vfSvcSpec{vfSvcA, vfSvcB}}) == nil, "RegisterConn failed")
-			c2.live, c2.svcs = true, []vfSvcSpec{vfSvcA, vfSvcB}
+			vfCheck(vfRegisterConn(mux, c2.cc, &vfReflStream{svcs: []vfSvcSpec{vfSvcA2, vfSvcB2}}) == nil, "RegisterConn failed")
+			c2.live, c2.svcs = true, []vfSvcSpec{vfSvcA2, vfSvcB2}
 		case 5:
 			if c1.live {
 				dropped = append(dropped, mux.loadState().conns[c1.cc].handlers)
@@ -474,6 +488,8 @@ func VerifH_config_vs_annotation() {
 	default:
 		verb, tmpl = "*", "/c/xx"
 	}
+	selector := []string{"vf.A.M1", "vf.A.*", "vf.*", "*"}[vfChoice(4)]
+	withOther := vfBool() // a second rule with a named selector next to it
 	build := func(viaConfig bool) *Mux {
 		sp := vfSvcSpec{full: "vf.A", file: "vfa.proto", reqName: "ReqA", methods: []vfMethodSpec{{name: "M1", verb: verb, tmpl: tmpl}}}
 		svc := vfFakeSvc(sp)
@@ -484,10 +500,14 @@ func VerifH_config_vs_annotation() {
 			svc.methods.list[0].opts = &fakeOpts{} // no annotation
 			cfg := vfHTTPRule(verb, tmpl)
 			cfg.Body = body
-			cfg.Selector = "vf.A.M1"
-			other := vfHTTPRule("GET", "/never/{f}")
-			other.Selector = "vf.A.Other"
-			opts = append(opts, ServiceConfigOption(&serviceconfig.Service{Http: &annotations.Http{Rules: []*annotations.HttpRule{other, cfg}}}))
+			cfg.Selector = selector
+			rules := []*annotations.HttpRule{cfg}
+			if withOther {
+				other := vfHTTPRule("GET", "/never/{f}")
+				other.Selector = "vf.A.Other"
+				rules = []*annotations.HttpRule{other, cfg}
+			}
+			opts = append(opts, ServiceConfigOption(&serviceconfig.Service{Http: &annotations.Http{Rules: rules}}))
 		} else {
 			svc.methods.list[0].opts = &fakeOpts{rule: rule}
 		}
@@ -503,7 +523,13 @@ func VerifH_config_vs_annotation() {
 		return mux
 	}
 	a, b := build(true), build(false)
-	route := vfRoute(vfBound(8, 10))
+	var route string
+	if selector == "vf.A.M1" && withOther {
+		route = vfRoute(vfBound(8, 10))
+	} else {
+		// the selector shape does not interact with the path: concrete probes suffice here
+		route = []string{"/c/zz", "/c/xx", "/c/aa/z:vv", "/never/q", "/vf.A/M1"}[vfChoice(5)]
+	}
 	rv := "GET"
 	if vfBool() {
 		rv = "POST"
@@ -524,6 +550,9 @@ func VerifH_config_vs_annotation() {
 	}
 	if len(route) > 3 && route[:3] == "/c/" {
 		vfCover("dispatched-by-rule")
+		if selector == "*" && !withOther {
+			vfCover("only-star-selector")
+		}
 	}
 	vfCover("dispatched")
 }
@@ -543,7 +572,7 @@ func VerifH_registry_maporder() {
 	case 0:
 		svcs = []vfSvcSpec{vfSvcA}
 	default:
-		svcs = []vfSvcSpec{vfSvcA, vfSvcB}
+		svcs = []vfSvcSpec{vfSvcA2, vfSvcB2}
 	}
 	vfCheck(vfRegisterConn(mux, c1, &vfReflStream{svcs: svcs}) == nil, "RegisterConn failed")
 	vfMapOrder(2)
